@@ -293,19 +293,62 @@ pub fn run_disturbance(name: &str) {
 use crate::engine::{PResult, Run};
 
 /// Property-level wrapper of `after_disturbances`: records the generator and reports a failure as
-/// `<ID>.after_disturbance` with a replayable case {disturbance, clause, case}.
-pub fn disturbance_pass<T>(
+/// `<ID>.after_disturbance` with a replayable case {disturbance, clause, case}. Afterwards the same
+/// items are checked from 8 threads at once (each thread walks the items from its own offset and
+/// runs a disturbance now and then): a result that depends on what other threads are doing is
+/// reported as `<ID>.concurrent`.
+pub fn disturbance_pass<T: Sync>(
     run: &mut Run,
     items: &[T],
-    check: &dyn Fn(&T) -> Result<(), String>,
+    check: &(dyn Fn(&T) -> Result<(), String> + Sync),
     to_case: &dyn Fn(&T) -> (String, Value, String),
 ) -> PResult {
+    if let Some(k) = run.cold {
+        if run.pass_counter != k {
+            run.pass_counter += 1;
+            return Ok(());
+        }
+        // cold start: 16 threads released together, their first calls into the crate are the checks
+        const T: usize = 16;
+        let len = items.len();
+        let barrier = std::sync::Barrier::new(T);
+        let first: std::sync::Mutex<Option<(usize, String)>> = std::sync::Mutex::new(None);
+        std::thread::scope(|sc| {
+            for k in 0..T {
+                let (first, barrier) = (&first, &barrier);
+                sc.spawn(move || {
+                    barrier.wait();
+                    for j in 0..len.min(4000) {
+                        let i = (j + k * len / T) % len;
+                        let msg = match guard(|| check(&items[i])) {
+                            Ok(Ok(())) => continue,
+                            Ok(Err(m)) => m,
+                            Err(p) => format!("panicked: {}", p),
+                        };
+                        let mut g = first.lock().unwrap();
+                        if g.is_none() {
+                            *g = Some((i, msg));
+                        }
+                        return;
+                    }
+                });
+            }
+        });
+        match first.into_inner().unwrap() {
+            None => println!("COLDRESULT ok"),
+            Some((i, m)) => {
+                let (clause, case, sig) = to_case(&items[i]);
+                println!("COLDRESULT fail {}", serde_json::to_string(&json!({"clause": clause, "case": case, "sig": sig, "message": m})).unwrap());
+            }
+        }
+        std::process::exit(0);
+    }
     if run.is_twin() {
         return Ok(());
     }
     let menu_len = disturbance_menu().len() as u64;
     let n = items.len() as u64 * menu_len;
-    let hit = after_disturbances(items, check);
+    let hit = after_disturbances(items, &|t| check(t));
     run.generator(
         "each item checked right after each API disturbance",
         "exhaustive over (disturbance, item) (histories across functions)",
@@ -319,11 +362,56 @@ pub fn disturbance_pass<T>(
         let id = run.id.clone();
         return run.violation(&format!("{}.after_disturbance", id), &format!("{} ; {}", name, sig), json!({"disturbance": name, "clause": clause, "case": case}), &format!("right after the calls of the disturbance '{}': {}", name, m));
     }
+    // concurrent phase
+    const THREADS: usize = 8;
+    let len = items.len();
+    let rounds = if len < 2000 { 4 } else { 1 };
+    let first: std::sync::Mutex<Option<(usize, String)>> = std::sync::Mutex::new(None);
+    std::thread::scope(|sc| {
+        for k in 0..THREADS {
+            let first = &first;
+            sc.spawn(move || {
+                let menu = disturbance_menu();
+                for r in 0..rounds {
+                    for j in 0..len {
+                        if j % 64 == 0 && first.lock().unwrap().is_some() {
+                            return;
+                        }
+                        let i = (j + k * len / THREADS + r * 7) % len;
+                        if (j + k) % 24 == 0 {
+                            (menu[(j / 24 + k) % menu.len()].1)();
+                        }
+                        let res = guard(|| check(&items[i]));
+                        let msg = match res {
+                            Ok(Ok(())) => continue,
+                            Ok(Err(m)) => m,
+                            Err(p) => format!("panicked: {}", p),
+                        };
+                        let mut g = first.lock().unwrap();
+                        if g.is_none() {
+                            *g = Some((i, msg));
+                        }
+                        return;
+                    }
+                }
+            });
+        }
+    });
+    let total = (THREADS * rounds * len) as u64;
+    run.generator("items checked from 8 threads at once", "concurrent stress (not schedule-controlled)", None, total, total, "each thread walks the items from its own offset and runs an API disturbance every 24 checks; a property-based harness does not own the schedule, so this finds races only with the probability of the interleaving");
+    if let Some((i, m)) = first.into_inner().unwrap() {
+        let (clause, case, sig) = to_case(&items[i]);
+        let id = run.id.clone();
+        let alone = check(&items[i]);
+        let note = if alone.is_ok() { " — the same check passes when repeated on one thread: the result depends on what other threads are doing" } else { "" };
+        return run.violation(&format!("{}.concurrent", id), &sig, json!({"clause": clause, "case": case}), &format!("while 8 threads were calling the API at the same time: {}{}", m, note));
+    }
     Ok(())
 }
 
 /// replay of an `<ID>.after_disturbance` case
 pub fn replay_after_disturbance(case: &Value, check_case: fn(&str, &Value) -> Result<(), String>) -> Result<(), String> {
+    // also used for `<ID>.concurrent` cases (no disturbance recorded: the single-thread check of the item)
     run_disturbance(case["disturbance"].as_str().unwrap_or(""));
     check_case(case["clause"].as_str().unwrap_or(""), &case["case"])
 }
